@@ -227,6 +227,16 @@ def _sep(emit, name, rng, base, first):
             okr = bool(np.all(np.abs(sc2 - refr) <= 1e-6 * (1 + np.abs(w2))))
             _rec(emit, cid + "/cdr", name + ".dist_fix_point_cd", okr, name, "fixpoint-score-differs-from-reference",
                  ps, w2, g2, sc2, refr, nontrivial=True, extra=dict(step=s))
+            # on a working set that is a permuted subset (gradient and Lipschitz constants indexed by position, w and the
+            # penalty by feature, as the solvers' inner loops do) the scores are those of the same features
+            if p >= 2:
+                sub = rng.permutation(p)[: max(1, p // 2)].astype(np.int64)
+                lips_v = 1.0 / (s * rng.uniform(0.5, 1.0, size=p))      # different per feature, all admissible (<= s)
+                full = np.asarray(dist_fix_point_cd(w2, g2, lips_v, cp, cp, all_ws.astype(np.int64)), float)
+                part = np.asarray(dist_fix_point_cd(w2, g2[sub], lips_v[sub], cp, cp, sub), float)
+                _rec(emit, cid + "/cdws", name + ".dist_fix_point_cd", bool(np.all(np.abs(part - full[sub]) <= 1e-12 * (1 + np.abs(w2[sub])))),
+                     name, "fixpoint-score-depends-on-working-set", ps, w2, g2, part, full[sub], nontrivial=True,
+                     extra=dict(step=s, ws=sub.tolist()))
         except Exception as e:
             _exc(emit, cid + "/cd", name + ".dist_fix_point_cd", name, "fixed-point-cd", e, ps, w, g)
     # ---- unpenalised features do not contribute to value()
@@ -391,6 +401,16 @@ def _grp(emit, name, rng, base, first):
             _rec(emit, cid + "/bcdr", name + ".dist_fix_point_bcd",
                  bool(np.all(np.abs(sc2 - refr) <= 1e-7 * (1 + norm(w2)))), name,
                  "fixpoint-score-differs-from-reference", ps, w2, g2, sc2, refr, nontrivial=True, extra=dict(step=s))
+            if ng >= 2:
+                subg = rng.permutation(ng)[: max(1, ng // 2)].astype(allg.dtype)
+                lips_v = 1.0 / (s * rng.uniform(0.5, 1.0, size=ng))
+                full = np.asarray(dist_fix_point_bcd(w2, gst2, lips_v, cp, cp, allg), float)
+                gsub = np.concatenate([g2[groups[gi]] for gi in subg])
+                # (the function returns an array of n_groups slots of which the first len(ws) are used, by position)
+                part = np.asarray(dist_fix_point_bcd(w2, gsub, lips_v[subg], cp, cp, subg), float)[: len(subg)]
+                _rec(emit, cid + "/bcdws", name + ".dist_fix_point_bcd", bool(np.all(np.abs(part - full[subg]) <= 1e-12 * (1 + norm(w2)))),
+                     name, "fixpoint-score-depends-on-working-set", ps, w2, g2, part, full[subg], nontrivial=True,
+                     extra=dict(step=s, ws=subg.tolist()))
         except Exception as e:
             _exc(emit, cid + "/bcd", name + ".dist_fix_point_bcd", name, "fixed-point-bcd", e, ps, w, g)
     try:
